@@ -829,6 +829,25 @@ mod if_alloc {
         }
     }
 
+    #[cfg(futures_intrusive_verif)]
+    impl<MutexType: RawMutex> GenericSharedSemaphore<MutexType> {
+        /// Scalars: `[is_fair, permits]`, queue: waiters
+        pub fn verif_snapshot(&self) -> crate::verif::Snapshot {
+            super::verif_hooks::snapshot(&self.state.lock())
+        }
+    }
+
+    #[cfg(futures_intrusive_verif)]
+    impl<MutexType: RawMutex> GenericSharedSemaphoreAcquireFuture<MutexType> {
+        /// Describes the wait node of this future
+        pub fn verif_node(&self) -> crate::verif::NodeSnap {
+            crate::verif::snap_list_node(
+                &self.wait_node,
+                &super::verif_hooks::describe,
+            )
+        }
+    }
+
     // Export parking_lot based shared semaphores in std mode
     #[cfg(feature = "std")]
     mod if_std {
@@ -851,3 +870,45 @@ mod if_alloc {
 
 #[cfg(feature = "alloc")]
 pub use self::if_alloc::*;
+
+#[cfg(all(futures_intrusive_verif, feature = "alloc"))]
+mod verif_hooks {
+    use super::*;
+    use crate::verif::{
+        snap_list, snap_list_node, waker_id, NodeSnap, Snapshot,
+    };
+
+    pub(super) fn describe(
+        entry: &WaitQueueEntry,
+    ) -> (u8, Option<usize>, u64) {
+        let tag = match entry.state {
+            PollState::New => 0,
+            PollState::Waiting => 1,
+            PollState::Notified => 2,
+            PollState::Done => 3,
+        };
+        (tag, waker_id(&entry.task), entry.required_permits as u64)
+    }
+
+    pub(super) fn snapshot(state: &SemaphoreState) -> Snapshot {
+        let mut snap = Snapshot::default();
+        snap.scalars.push(state.is_fair as u64);
+        snap.scalars.push(state.permits as u64);
+        snap_list(&state.waiters, &mut snap, &describe);
+        snap
+    }
+
+    impl<MutexType: RawMutex> GenericSemaphore<MutexType> {
+        /// Scalars: `[is_fair, permits]`, queue: waiters
+        pub fn verif_snapshot(&self) -> Snapshot {
+            snapshot(&self.state.lock())
+        }
+    }
+
+    impl<'a, MutexType: RawMutex> GenericSemaphoreAcquireFuture<'a, MutexType> {
+        /// Describes the wait node of this future
+        pub fn verif_node(&self) -> NodeSnap {
+            snap_list_node(&self.wait_node, &describe)
+        }
+    }
+}
